@@ -143,8 +143,9 @@ def partition(order):
 
 def aromatic_perception_differs(m, x):
     """same Kekule graph, different set of aromatised bonds: a thiele() (C05) matter, routed separately"""
-    return sorted(b.order for *_, b in m.bonds()) != sorted(b.order for *_, b in x.bonds()) and \
-        sum(b.order == 4 for *_, b in m.bonds()) != sum(b.order == 4 for *_, b in x.bonds())
+    def arom(g):
+        return sorted(tuple(sorted((g.atom(i).atomic_symbol, g.atom(j).atomic_symbol))) for i, j, b in g.bonds() if b.order == 4)
+    return arom(m) != arom(x)
 
 
 def mcb_unique(m):
